@@ -41,6 +41,14 @@ for t in "${targets[@]}"; do
       python3 "$V/overlays/mk_runtime_map.py" "$GOROOT_DIR/src/runtime/map.go" "$V/build/runtime_map_hooked.go"
       mk_overlay "$V/build/overlay-map.json" 1
       go build $MODFLAG -tags verif,maphook -overlay "$V/build/overlay-map.json" -o "$V/build/vcheck-map" ./cmd/vcheck ;;
+    real)
+      # the real Aspect runner (no runner stub): conformance of the stub's answer table against aspect-runtime/wasmtime
+      {
+        echo '{"Replace":{'
+        echo "\"$R/vm/zz_verif_export.go\":\"$V/overlays/vm_export.go.txt\""
+        echo '}}'
+      } > "$V/build/overlay-real.json"
+      go build $MODFLAG -tags verif,realrunner -overlay "$V/build/overlay-real.json" -o "$V/build/vcheck-real" ./cmd/vcheck ;;
     race)
       mk_overlay "$V/build/overlay.json" 0
       go build $MODFLAG -race -tags verif -overlay "$V/build/overlay.json" -o "$V/build/vcheck-race" ./cmd/vcheck ;;
